@@ -176,6 +176,13 @@ def c17(tier, replay_file=None):
             for i in range(600 if tier == "quick" else 20000):
                 pats = [[rng.choice(wide) for _ in range(rng.randint(1, 12))] for _ in range(rng.choice([1, 1, 2, 3]))]
                 cases.append({"id": n0 + i + 1, "pats": pats})
+            # escape-like sequences next to a blank (whatever rewrites the escaped text afterwards must respect escape boundaries)
+            n0 = len(cases)
+            k = 0
+            for ch in "abefnrstvx01234567uU\\\"'%$;":
+                for pats in ([" \\" + ch], ["\\" + ch + " x"], ["a \\" + ch + "b", "K"], ["\\\\" + ch + " "]):
+                    k += 1
+                    cases.append({"id": n0 + k, "pats": [[ord(c_) for c_ in p_] for p_ in pats]})
             # a dictionary in the fuzzers' sense: every word of every string literal of the file that builds the unit (whatever
             # marker, placeholder or keyword the code itself works with is a pattern a user may type), alone and embedded
             toks = source_tokens(os.path.join(REPO, "src", "udev_utils.rs"))
@@ -717,6 +724,8 @@ MUT_VALUES = [None, True, 0, -1, 1.5, 1e99, 2147483648, -2147483649, 4294967297,
               {"letters": "é"}, {"letters": "abcdefghijklmnopqrstuvwxyz"}, {"letters": 5}, {"Special": {}}, {"Special": {"keys": "A", "delay_ms": "x", "interval_ms": 1}},
               {"Special": {"keys": ["LEFTSHIFT", "LEFTSHIFT"], "delay_ms": -5, "interval_ms": 0}}, "Disabled", "x" * 300,
               # one-character strings of many Unicode kinds (digits that are not ASCII digits, fractions, letters, marks, symbols, controls, astral)
+              # long strings of two-byte characters at four alignments (whatever cuts a message or a name at a byte offset)
+              "\u00e4\u00f6\u00fc\u00df" * 40, "x" + "\u00e4\u00f6\u00fc\u00df" * 40, {"letters": "xx" + "\u00e4\u00f6" * 70}, {"letters": "xxx" + "\u00e4\u00f6" * 70},
               "\u00b2", "\u00bd", "\u0663", "\u2167", "\uff15", "\u00e9", "\u00df", "\u0301", "\u221a", "\u0007", "\U0001f600", "0", "9", ":", "/", " "]
 
 
